@@ -88,7 +88,7 @@ def digest(obj):
     return hashlib.md5(np.ascontiguousarray(a).tobytes()).hexdigest()
 
 
-def detector_pair(fam, p, items, layout, s):
+def detector_pair(fam, p, items, layout, s, setref_at=()):
     """A gets private copies, B gets the caller's objects which are overwritten with garbage after every call"""
     kind = P.families()[fam]["kind"]
     a, b = P.make(fam, p), P.make(fam, p)
@@ -124,11 +124,13 @@ def detector_pair(fam, p, items, layout, s):
         call(b, "set_reference", items[0], True)
         t0 = 1
     for t in range(t0, len(items)):
+        # (batch detectors) the caller hands over a NEW reference in the middle of the history, in the same container as everything else
+        meth = "set_reference" if kind == "batch" and t in setref_at else "update"
         P.seed(s, t)
-        call(a, "update", items[t], False)
+        call(a, meth, items[t], False)
         P.seed(s, t)
         try:
-            call(b, "update", items[t], True)
+            call(b, meth, items[t], True)
             e = P.step_event(a, b)
         except Exception as ex:  # noqa
             e = P.step_event(a, b)
@@ -138,7 +140,7 @@ def detector_pair(fam, p, items, layout, s):
         if modified:
             e["b"]["tag"] = "CALLER DATA MODIFIED"
         ev.append(e)
-    return {"cfg": {"rel": "Equal", "fam": fam}, "ev": ev, "fam": fam, "params": p, "items": items, "layout": layout, "seed": s}
+    return {"cfg": {"rel": "Equal", "fam": fam}, "ev": ev, "fam": fam, "params": p, "items": items, "layout": layout, "seed": s, "setref_at": list(setref_at)}
 
 
 def md3_pair(seed, mode, L, sens):
